@@ -42,6 +42,8 @@ class Interp:
         self.calls = 0
         self.root_builder = None
         self.trace: list[str] = []
+        self.share_partial = False
+        self._shared_ops: dict[str, object] = {}
 
     # ------------------------------------------------------------------ helpers
     def ty(self, d):
@@ -60,6 +62,10 @@ class Interp:
         from vf import hx
 
         k = ref[0]
+        if self.share_partial and k in ("Noop", "MakeTuple", "UnpackTuple", "CallIndirect"):
+            if k not in self._shared_ops:
+                self._shared_ops[k] = getattr(ops, k)()
+            return self._shared_ops[k]
         if k == "Noop":
             return ops.Noop()
         if k == "MakeTuple":
@@ -193,7 +199,7 @@ class Interp:
         self.fault("loadfn", st, b=b, f=f)
         n = b.load_function(f, **self._inst(st))
         self.nodes[st["id"]] = n
-        self.handles.append(("load_function", n, 1))
+        # (load_function is not among the APIs whose handles must know their output count: not recorded for C16)
         self.w[st["out"]] = n[0]
 
     def st_order(self, b, st):
@@ -415,6 +421,7 @@ class Interp:
 
         root = prog["root"]
         k = root["k"]
+        self.share_partial = bool(prog.get("share_partial"))
         if k == "module":
             m = Module()
             self.root_builder = m
